@@ -1,10 +1,11 @@
 import DmlcModel.Basic
 import DmlcModel.Gen.Param
 import DmlcModel.Param.IStream
+import DmlcModel.Json.Model
 /-!
 Executable model of `dmlc::Parameter` (include/dmlc/parameter.h, optional.h): `FieldEntry<T>::Set` /
 `Check` per field type, `ParamManager::RunUpdate` / `RunInit`, `InitAllowUnknown`,
-`UpdateAllowUnknown`, `UpdateDict`, `__DICT__`, `Save` / `Load`.  Same branch structure as the C++;
+`UpdateAllowUnknown`, `UpdateDict`, `__DICT__`, `Save` / `Load` (JSON through the C16 model `Json.Model`).  Same branch structure as the C++;
 every constant, table and branch condition comes from `Gen.Param`.  Core Lean only.
 
 The text → float/double conversion (`dmlc::stof` / `dmlc::stod`) and the float printing
@@ -404,97 +405,50 @@ def updateDict (ops : FloatOps) (S : Schema) (st : Struct) (d : List KV) : Excep
   | .error e => .error e
   | .ok kvs => .ok (kvs.foldl (fun m e => mapInsert e.1 e.2 m) d)
 
-/-! ### minimal JSON writer / reader for `std::map<std::string, std::string>` (json.h) -/
+/-! ### JSON form: `std::map<std::string, std::string>` through the C16 model of json.h -/
 
-/-- `JSONWriter::WriteString` -/
-def jsonEscape : Bytes → Bytes
-  | [] => []
-  | c :: cs =>
-    if c.toNat == 13 then 92 :: 114 :: jsonEscape cs
-    else if c.toNat == 10 then 92 :: 110 :: jsonEscape cs
-    else if c.toNat == 92 then 92 :: 92 :: jsonEscape cs
-    else if c.toNat == 9 then 92 :: 116 :: jsonEscape cs
-    else if c.toNat == 34 then 92 :: 34 :: jsonEscape cs
-    else c :: jsonEscape cs
+/-- the `std::map<std::string, std::string>` handed to `JSONWriter::Write` as a C16 value -/
+def toJson (kvs : List KV) : Json.Val := .obj (kvs.map fun kv => (kv.1, .str kv.2))
 
-def jsonString (s : Bytes) : Bytes := (34 : Byte) :: (jsonEscape s ++ [34])
+def ofJsonStr : Json.Val → Option Bytes
+  | .str s => some s
+  | _ => none
 
-/-- items of `MapHandler::Write`; `multi` = `map.size() > 1`, `first` = scope counter is 0.
-The key is written as the pinned `WriteObjectKeyValue` writes it: between quotes, unescaped. -/
-def jsonItems (multi : Bool) : Bool → List KV → Bytes
-  | _, [] => []
-  | first, (k, v) :: rest =>
-    (if first then [] else [44, 32]) ++ (if multi then [10, 32, 32] else []) ++
-      ((34 : Byte) :: (k ++ [34, 58, 32])) ++ jsonString v ++ jsonItems multi false rest
+def ofJsonPairs : List (Bytes × Json.Val) → Option (List KV)
+  | [] => some []
+  | (k, v) :: rest =>
+    match ofJsonStr v, ofJsonPairs rest with
+    | some s, some r => some ((k, s) :: r)
+    | _, _ => none
 
-/-- `JSONWriter::Write(std::map<std::string, std::string>)` on a fresh writer -/
-def jsonWriteMap (m : List KV) : Bytes :=
-  let multi := decide (m.length > 1)
-  (123 : Byte) :: (jsonItems multi true m ++ (if multi && !m.isEmpty then [10] else []) ++ [125])
+/-- the map `JSONReader::Read` filled, as an argument list in map order -/
+def ofJson : Json.Val → Option (List KV)
+  | .obj kvs => ofJsonPairs kvs
+  | _ => none
 
-/-- `JSONReader::ReadString` after the opening quote: the string and the input after the closing quote -/
-def jsonReadStrBody : Bytes → Bytes → Option (Bytes × Bytes)
-  | _, [] => none                                         -- EOF: LOG(FATAL)
-  | acc, c :: cs =>
-    if c.toNat == 92 then
-      match cs with
-      | [] => none
-      | e :: cs' =>
-        if e.toNat == 114 then jsonReadStrBody (acc ++ [13]) cs'
-        else if e.toNat == 110 then jsonReadStrBody (acc ++ [10]) cs'
-        else if e.toNat == 92 then jsonReadStrBody (acc ++ [92]) cs'
-        else if e.toNat == 116 then jsonReadStrBody (acc ++ [9]) cs'
-        else if e.toNat == 34 then jsonReadStrBody (acc ++ [34]) cs'
-        else none                                         -- unknown string escape
-    else if c.toNat == 34 then some (acc, cs)
-    else if c.toNat == 13 || c.toNat == 10 then none      -- end of line inside a string
-    else jsonReadStrBody (acc ++ [c]) cs
+/-- the schema type of the C16 family for `std::map<std::string, std::string>` -/
+def jsonMapTy : Json.JTy := .map .str
 
-/-- `JSONReader::ReadString`: skip white space, expect a quote -/
-def jsonReadString (s : Bytes) : Option (Bytes × Bytes) :=
-  match skipWs s with
-  | c :: cs => if c.toNat == 34 then jsonReadStrBody [] cs else none
-  | [] => none
+/-- `JSONWriter w(&os); w.Write(map)` on a fresh writer -/
+def jsonWriteMap (m : List KV) : Option Bytes :=
+  match Json.writeTop jsonMapTy (toJson m) with
+  | .ok bs => some bs
+  | .error _ => none
 
-/-- the `while (NextObjectItem(&key))` loop of `MapHandler::Read`; `cnt` = items read so far -/
-def jsonReadItems : Nat → Nat → List KV → Bytes → Option (List KV)
-  | 0, _, _, _ => none
-  | fuel + 1, cnt, m, s =>
-    let afterSep : Option (Option Bytes) :=      -- none: malformed; some none: object finished
-      match skipWs s with
-      | [] => if cnt == 0 then none else some none       -- EOF after an item ends the object
-      | c :: cs =>
-        if c.toNat == 125 then some none
-        else if cnt == 0 then some (some (c :: cs))
-        else if c.toNat == 44 then some (some cs)
-        else none
-    match afterSep with
-    | none => none
-    | some none => some m
-    | some (some s1) =>
-      match jsonReadString s1 with
-      | none => none
-      | some (k, s2) =>
-        match skipWs s2 with
-        | c :: s3 =>
-          if c.toNat == 58 then
-            match jsonReadString s3 with
-            | none => none
-            | some (v, s4) => jsonReadItems fuel (cnt + 1) (mapInsert k v m) s4
-          else none
-        | [] => none
-
-/-- `JSONReader::Read(std::map<std::string, std::string>*)`; `none` = a CHECK / LOG(FATAL) fired -/
+/-- `JSONReader r(&is); r.Read(&map)`; `none` = a CHECK / LOG(FATAL) fired -/
 def jsonReadMap (s : Bytes) : Option (List KV) :=
-  match skipWs s with
-  | c :: cs => if c.toNat == 123 then jsonReadItems (s.length + 1) 0 [] cs else none
-  | [] => none
+  match Json.readTop jsonMapTy s with
+  | .ok (v, _) => ofJson v
+  | .error _ => none
 
 /-- `Parameter::Save` -/
 def save (ops : FloatOps) (S : Schema) (st : Struct) : Except ErrKind Bytes :=
   match dict ops S st with
   | .error e => .error e
-  | .ok kvs => .ok (jsonWriteMap kvs)
+  | .ok kvs =>
+    match jsonWriteMap kvs with
+    | some bs => .ok bs
+    | none => .error .check
 
 /-- `Parameter::Load`: read the map, then `Init(kwargs)` with the default option `kAllowHidden` -/
 def load (ops : FloatOps) (S : Schema) (st : Struct) (text : Bytes) : UpdOut :=
